@@ -60,11 +60,16 @@ def _one(ctx, rng, knobs_fn, on_result, sched_steps, ninputs, op_weights, nprog,
     ctx.stat("programs.accepted")
     sess = Session(mod, gp.root, gp.text)
     nsteps = rng.choice(sched_steps)
+    if (getattr(gp, "meta", None) or {}).get("op_sequence") and rng.random() < 0.7:
+        nsteps = max(nsteps, len(gp.meta["op_sequence"]))
     tries = 0
     while len(sess.steps) < nsteps and tries < nsteps * 4:
         tries += 1
         prefer = (getattr(gp, "meta", None) or {}).get("prefer_ops")
-        if prefer and len(sess.steps) < 2 and rng.random() < 0.6:
+        seq = (getattr(gp, "meta", None) or {}).get("op_sequence")
+        if seq and len(sess.steps) < len(seq) and rng.random() < 0.8:
+            st = random_step(sess, rng, {seq[len(sess.steps)]: 1.0})
+        elif prefer and len(sess.steps) < 2 and rng.random() < 0.6:
             # templates name the primitives that produce the forms they were written for
             st = random_step(sess, rng, {o: 1.0 for o in prefer})
         else:
